@@ -114,3 +114,36 @@ def resolve(fn_body, e, depth=0):
             continue
         break
     return e
+
+
+def for_loops(n):
+    """-> list of (pattern, iterated expr, body expr) for every `for pat in expr { body }` (desugared form)"""
+    out = []
+    for x in walk(n):
+        if x.get("k") == "Match" and x.get("src") == "ForLoopDesugar" and x["scrut"].get("k") == "Call":
+            f = x["scrut"]["f"]
+            if f.get("k") == "Path" and f["res"].get("path", "").endswith("IntoIterator::into_iter"):
+                it = x["scrut"]["args"][0]
+                lp = x["arms"][0]["body"]
+                if lp.get("k") != "Loop":
+                    continue
+                for st in lp["b"]["stmts"]:
+                    inner = st.get("e")
+                    if inner and inner.get("k") == "Match" and inner.get("src") == "ForLoopDesugar":
+                        for a in inner["arms"]:
+                            p = a["pat"]
+                            if p.get("k") in ("Struct", "TupleStruct") and p["res"].get("path", "").endswith("Some"):
+                                pat = p["fields"][0]["pat"] if p["k"] == "Struct" else p["pats"][0]
+                                out.append((pat, it, a["body"]))
+    return out
+
+
+def if_chain(e):
+    """`if c1 {b1} else if c2 {b2} … else {bn}` -> ([(c1,b1),(c2,b2)…], else or None)"""
+    arms = []
+    while e is not None and e.get("k") == "If":
+        arms.append((e["cond"], e["then"]))
+        e = e.get("else")
+        if e is not None and e.get("k") == "Block" and not e["b"]["stmts"] and e["b"].get("expr") is not None and e["b"]["expr"].get("k") == "If":
+            e = e["b"]["expr"]
+    return arms, e
